@@ -1109,6 +1109,84 @@ fn shared_border(c: &mut Case) {
     run_random(c, gen_shared_border)
 }
 
+/// DBSCAN expands clusters from an explicit stack that can hold a point several times. Random data keep it short
+/// (about 1.4 n at most); this family *searches* for point sets and row orders that make it long — hill climbing on
+/// small half-step lattice sets (moves: relocate a point, stack it onto another point, swap two rows), guided by the
+/// high-water mark of the stack reported by the `verif` gauge — and then judges the labelling of the set it ended
+/// with (and of the one it started from) by the same oracles as every other family, on both backends.
+fn stack_stress(c: &mut Case) {
+    const SITE: &str = "dbscan.stack";
+    let n = c.rng.us(16, 36);
+    let dims = c.rng.us(1, 2);
+    let span = c.rng.us(6, 14) as i64;
+    let ms = c.rng.us(5, 9);
+    let eps = *c.rng.pick(&[0.5, 1.0, 1.0, 1.5]);
+    // start: a few sites carrying several points each (dense duplicates) plus scattered points
+    let sites: Vec<Vec<f64>> = (0..c.rng.us(2, 5)).map(|_| (0..dims).map(|_| c.rng.int(0, span) as f64 / 2.0).collect()).collect();
+    let mut pts: Vec<Vec<f64>> = (0..n).map(|_| if c.rng.bool(0.6) { c.rng.pick(&sites).clone() } else { (0..dims).map(|_| c.rng.int(0, span) as f64 / 2.0).collect() }).collect();
+    // fitness: the stack high-water mark; while it is still zero (no cluster at all) the number of core points
+    let measure = |pts: &Vec<Vec<f64>>| -> Option<(u64, usize)> {
+        let cores = (0..pts.len()).filter(|&i| (0..pts.len()).filter(|&j| csum((0..pts[i].len()).map(|t| (pts[i][t] - pts[j][t]).powi(2))).sqrt() <= eps).count() >= ms).count();
+        let x = DenseMatrix::from_2d_vec(pts);
+        let _ = smartcore::verif::take_max(SITE);
+        let r = guard(|| DBSCAN::fit(&x, DBSCANParameters::default().with_eps(eps).with_min_samples(ms).with_algorithm(KNNAlgorithmName::LinearSearch)));
+        let g = smartcore::verif::take_max(SITE);
+        match r {
+            Ok(Ok(_)) => Some((g, if g == 0 { cores } else { 0 })),
+            _ => None,
+        }
+    };
+    let mut best = match measure(&pts) {
+        Some(g) => g,
+        None => {
+            c.inconclusive("stack-stress: the starting set could not be fitted");
+            return;
+        }
+    };
+    let steps = 2500;
+    for _ in 0..steps {
+        let mut cand = pts.clone();
+        match c.rng.below(4) {
+            0 => {
+                let i = c.rng.below(n);
+                cand[i] = (0..dims).map(|_| c.rng.int(0, span) as f64 / 2.0).collect();
+            }
+            1 => {
+                let (i, j) = (c.rng.below(n), c.rng.below(n));
+                cand[i] = cand[j].clone();
+            }
+            2 => {
+                let (i, j) = (c.rng.below(n), c.rng.below(n));
+                cand.swap(i, j);
+            }
+            _ => {
+                let i = c.rng.below(n);
+                let j = c.rng.below(dims);
+                cand[i][j] = (cand[i][j] + if c.rng.bool(0.5) { 0.5 } else { -0.5 }).max(0.0);
+            }
+        }
+        if let Some(g) = measure(&cand) {
+            if g >= best {
+                best = g;
+                pts = cand;
+            }
+        }
+    }
+    let best = best.0;
+    let ratio = best as f64 / n as f64;
+    c.bucket(&format!("stack-high-water/n:{}", if ratio <= 1.0 { "<=1" } else if ratio <= 1.5 { "1..1.5" } else if ratio <= 2.0 { "1.5..2" } else if ratio <= 3.0 { "2..3" } else { ">3" }));
+    c.describe(json!({"search": "hill climbing on the expansion-stack high-water mark", "eps": eps, "min_samples": ms, "n": n, "stack_high_water": best, "points": pts}));
+    for p in &pts {
+        c.hash_f64s(p);
+    }
+    c.hash_f64s(&[eps, ms as f64]);
+    c.bucket("metric:euclidean");
+    let queries: Vec<Vec<f64>> = (0..6).map(|_| (0..dims).map(|_| c.rng.int(0, span) as f64 / 2.0).collect()).collect();
+    let mut st = St::default();
+    run_configs::<f64, _>(c, pts, &queries, &Distances::euclidian(), "euclidean", &[(eps, ms)], &mut st, false);
+    c.nontrivial();
+}
+
 // ------------------------------------------------------------------------------------------ exhaustive
 
 /// index -> sequence with repetition over 0..base, ordered by length 1..=maxlen
@@ -1262,6 +1340,7 @@ fn main() {
             Family::new("uniform", 1500, 20000, uniform),
             Family::new("small", 1000, 10000, small),
             Family::new("shared_border", 1000, 10000, shared_border),
+            Family::new("stack_stress", 64, 640, stack_stress),
             Family::new("lattice1d", 5460, 21844, lattice1d).exhaustive(true, true),
             Family::new("lattice2d", 18729, 260649, lattice2d).exhaustive(true, true),
             Family::new("lattice2d_rep", 7380, 66429, lattice2d_rep).exhaustive(true, true),
